@@ -602,6 +602,27 @@ class State:
             self.heap[key] = T(name, sort)
         return self.heap[key]
 
+    def alloc_arr(self, ctx, cls):
+        key = ("alloc", cls)
+        if key not in self.heap:
+            name = f"A0_{cls}"
+            sort = smt.arr_sort(REF_SORT[cls], "Bool")
+            decl = f"(declare-const {name} {sort})"
+            if decl not in ctx.decls:
+                ctx.decls.append(decl)
+            self.heap[key] = T(name, sort)
+        return self.heap[key]
+
+    def is_alloc(self, ctx, ref):
+        return Select(self.alloc_arr(ctx, ref.cls), ref.t)
+
+    def allocate(self, ctx, cls, base="new"):
+        """A fresh reference: not allocated before, allocated afterwards."""
+        r = VRef(ctx.const(base + "_" + cls, REF_SORT[cls]), cls)
+        s = self.assume(Not(self.is_alloc(ctx, r)))
+        s.heap[("alloc", cls)] = Store(self.alloc_arr(ctx, cls), r.t, TRUE)
+        return s, r
+
     def field(self, ctx, ref, f):
         if f not in FIELDS[ref.cls]:
             raise Unsupported(f"field {ref.cls}.{f}")
@@ -700,6 +721,7 @@ class Engine:
         self.loop_counter = 0
         self.loop_stack = []
         self.cur_func_node = None
+        self.cur_class = None
         self.spec_sides = None          # list collecting (cond T, exc name) in code mode
         self.in_spec = 0
 
@@ -864,11 +886,16 @@ class Engine:
             f = And if isinstance(node.op, ast.And) else Or
             return VBool(f(*[v.t for v in vals]))
         # value-returning and/or
-        out = vals[-1]
-        for v in reversed(vals[:-1]):
-            t = truthy(self.ctx, v)
-            out = vite(self.ctx, t, out, v) if isinstance(node.op, ast.And) else vite(self.ctx, t, v, out)
-        return out
+        try:
+            out = vals[-1]
+            for v in reversed(vals[:-1]):
+                t = truthy(self.ctx, v)
+                out = vite(self.ctx, t, out, v) if isinstance(node.op, ast.And) else vite(self.ctx, t, v, out)
+            return out
+        except Unsupported:
+            # operands of different types: only meaningful in a boolean context -> truthiness
+            f = And if isinstance(node.op, ast.And) else Or
+            return VBool(f(*[truthy(self.ctx, v) for v in vals]))
 
     def ev_IfExp(self, node, env, st):
         c = truthy(self.ctx, self.ev(node.test, env, st))
@@ -1031,7 +1058,7 @@ class Engine:
 
     # ---- generators -> quantifiers -----------------------------------------------------
     def iter_bind(self, gen_iter, target, env, st):
-        """Returns (bound vars, guard T, env additions) for `for target in gen_iter`."""
+        """Returns a list of alternative sources (bound vars, guard T, env additions) for `for target in gen_iter`."""
         c = self.ctx
         # special iterables
         if isinstance(gen_iter, ast.Call):
@@ -1049,33 +1076,55 @@ class Engine:
                     raise Unsupported("enumerate over non-list")
                 i = c.bvar("i", "Int")
                 v = VTuple([VInt(Add(i, Int(start))), xs.at(i)])
-                return [i], And(Le(Int(0), i), Lt(i, xs.n)), self.bind_target(target, v)
+                return [([i], And(Le(Int(0), i), Lt(i, xs.n)), self.bind_target(target, v))]
             if fname == "range" and isinstance(fn, ast.Name):
                 args = [self.ev(a, env, st) for a in gen_iter.args]
                 lo, hi = (Int(0), args[0].t) if len(args) == 1 else (args[0].t, args[1].t)
                 i = c.bvar("i", "Int")
-                return [i], And(Le(lo, i), Lt(i, hi)), self.bind_target(target, VInt(i))
+                return [([i], And(Le(lo, i), Lt(i, hi)), self.bind_target(target, VInt(i)))]
             if fname == "combinations" and len(gen_iter.args) == 2 and ast.literal_eval(gen_iter.args[1]) == 2:
                 xs = self.ev(gen_iter.args[0], env, st)
                 i, j = c.bvar("i", "Int"), c.bvar("j", "Int")
                 v = VTuple([xs.at(i), xs.at(j)])
-                return [i, j], And(Le(Int(0), i), Lt(i, j), Lt(j, xs.n)), self.bind_target(target, v)
+                return [([i, j], And(Le(Int(0), i), Lt(i, j), Lt(j, xs.n)), self.bind_target(target, v))]
             if fname == "product" and len(gen_iter.args) == 2:
                 a = self.ev(gen_iter.args[0], env, st)
                 b = self.ev(gen_iter.args[1], env, st)
-                v1, g1, x1 = self.iter_value(a)
-                v2, g2, x2 = self.iter_value(b)
-                return v1 + v2, And(g1, g2), self.bind_target(target, VTuple([x1, x2]))
+                return [(v1 + v2, And(g1, g2), self.bind_target(target, VTuple([x1, x2])))
+                        for v1, g1, x1 in self.iter_sources(a) for v2, g2, x2 in self.iter_sources(b)]
             if fname in ("items", "values", "keys") and isinstance(fn, ast.Attribute) and not gen_iter.args:
                 d = self.ev(fn.value, env, st)
                 if isinstance(d, VDict):
                     k = c.bvar("k", c.sort(d.kty))
                     kv = c.wrap(k, d.kty)
                     val = {"items": lambda: VTuple([kv, d.get(kv)]), "values": lambda: d.get(kv), "keys": lambda: kv}[fname]()
-                    return [k], d.has(kv), self.bind_target(target, val)
+                    return [([k], d.has(kv), self.bind_target(target, val))]
         xs = self.ev(gen_iter, env, st)
-        vs, g, x = self.iter_value(xs)
-        return vs, g, self.bind_target(target, x)
+        return [(vs, g, self.bind_target(target, x)) for vs, g, x in self.iter_sources(xs)]
+
+    def iter_sources(self, xs):
+        """Alternatives (vars, guard, element) that together enumerate xs: concatenations and sets with an
+        explicit description are enumerated part by part, so every part is indexed by its own variable."""
+        if isinstance(xs, VOpt):
+            xs = xs.val
+        if isinstance(xs, VList) and xs.parts is not None:
+            out = []
+            for off, sub in xs.parts:
+                if re.fullmatch(r"\d+", sub.n.s) and int(sub.n.s) <= 3:
+                    for k in range(int(sub.n.s)):
+                        out.append(([], TRUE, sub.at(Int(k))))
+                else:
+                    out += self.iter_sources(sub)
+            return out
+        if isinstance(xs, VSet) and xs.parts is not None:
+            out = []
+            for pk, pv in xs.parts:
+                if pk == "one":
+                    out.append(([], TRUE, pv))
+                else:
+                    out += self.iter_sources(pv)
+            return out
+        return [self.iter_value(xs)]
 
     def iter_value(self, xs):
         c = self.ctx
@@ -1136,21 +1185,8 @@ class Engine:
             if k == len(generators):
                 return body_fn(env_)
             g = generators[k]
-            # a set with an explicit description: range over its parts (indices), not over elements
-            if not isinstance(g.iter, ast.Call) or not (isinstance(g.iter.func, ast.Name) and g.iter.func.id in ("enumerate", "range")) \
-                    and not (isinstance(g.iter.func, ast.Attribute) and g.iter.func.attr in ("items", "values", "keys", "combinations", "product")):
-                try_set = self.ev(g.iter, env_, st)
-                if isinstance(try_set, VSet) and try_set.parts is not None:
-                    outs = []
-                    for pk, pv in try_set.parts:
-                        if pk == "one":
-                            outs.append(one_source(k, env_, g, [], TRUE, self.bind_target(g.target, pv)))
-                        else:
-                            i = c.bvar("i", "Int")
-                            outs.append(one_source(k, env_, g, [i], And(Le(Int(0), i), Lt(i, pv.n)), self.bind_target(g.target, pv.at(i))))
-                    return And(*outs) if kind == "all" else Or(*outs)
-            vs, guard, add = self.iter_bind(g.iter, g.target, env_, st)
-            return one_source(k, env_, g, vs, guard, add)
+            outs = [one_source(k, env_, g, vs, guard, add) for vs, guard, add in self.iter_bind(g.iter, g.target, env_, st)]
+            return And(*outs) if kind == "all" else Or(*outs)
         return rec(0, env)
 
     def ev_GeneratorExp(self, node, env, st):
@@ -1217,15 +1253,18 @@ class Engine:
         j = c.bvar("j", "Int")
         c.bound.append(j)
         try:
-            src_exists = self.comp(node.generators, env, st, lambda env2: veq(c, L.at(j), self.ev(node.elt, env2, st), st), "any")
+            src_exists = self.comp(node.generators, env, st, lambda env2: veq(c, L.at(j), self.ev(node.elt, env2, st), None), "any")
         finally:
             c.bound.pop()
         c.assumptions.append(ForAll([j], Implies(And(Le(Int(0), j), Lt(j, L.n)), src_exists)))
+        # the instance at index 0 explicitly (non-emptiness is usually asked through len() only)
+        zero = self.comp(node.generators, env, st, lambda env2: veq(c, L.at(Int(0)), self.ev(node.elt, env2, st), None), "any")
+        c.assumptions.append(Implies(Lt(Int(0), L.n), zero))
 
         def covered(env2):
             e = self.ev(node.elt, env2, st)
             k = c.bvar("k", "Int")
-            return Exists([k], And(Le(Int(0), k), Lt(k, L.n), veq(c, L.at(k), e, st)))
+            return Exists([k], And(Le(Int(0), k), Lt(k, L.n), veq(c, L.at(k), e, None)))
         c.assumptions.append(self.comp(node.generators, env, st, covered, "all"))
         return L
 
